@@ -84,7 +84,8 @@ def registry():
 
     from pySDC.projects.DAE.problems.simpleDAE import SimpleDAE
     from pySDC.implementations.sweeper_classes.imex_1st_order_mass import imex_1st_order_mass
-    from sim.massproblem import MassDahlquist, TwoPartDahlquist
+    from sim.massproblem import MassDahlquist, TwoPartDahlquist, IdentityTransferWithProject
+    from pySDC.implementations.transfer_classes.BaseTransfer_mass import base_transfer_mass
     from pySDC.projects.DAE.problems.discontinuousTestDAE import DiscontinuousTestDAE
     from pySDC.projects.DAE.sweepers.fullyImplicitDAE import FullyImplicitDAE
     from pySDC.projects.DAE.sweepers.semiImplicitDAE import SemiImplicitDAE
@@ -565,6 +566,8 @@ def build(sc, ctx, extra_hooks=(), counting=False, plain=False, shared=None):
         desc['space_transfer_params'] = dict(cfg['transfer'].get('params', {}))
         if cfg['transfer'].get('base_params'):
             desc['base_transfer_params'] = dict(cfg['transfer']['base_params'])
+        if cfg['transfer'].get('base_class'):
+            desc['base_transfer_class'] = resolve(cfg['transfer']['base_class'])
     ccs = {}
     for name, params in cfg.get('cc', []):
         ccs[resolve(name)] = dict(params)
